@@ -30,8 +30,8 @@ ASSUMPTIONS = [
     "Kelvin-Mandel ordering [11,22,33,sqrt2*23,sqrt2*13,sqrt2*12]; relative tolerance 1e-10",
 ]
 TIMEOUT_CASE = 120
-MIN_EVALS = {"C-spd": 100, "C-times-S": 100, "C-matches-reference": 100, "plane-reduction": 40, "voigt-vs-mandel": 10, "pmat-orthogonal": 20,
-             "axes-any-length": 20, "update-matches-fresh": 20, "heterogeneous-slices": 10}
+MIN_EVALS = {"C-spd": 50, "C-times-S": 50, "C-matches-reference": 50, "plane-reduction": 20, "voigt-vs-mandel": 8, "pmat-orthogonal": 12,
+             "axes-any-length": 15, "update-matches-fresh": 15, "heterogeneous-slices": 4}
 REQUIRED_COVERAGE = ["Get_Pmat", "Apply_Pmat", "Apply_basis_transformation", "KelvinMandel_Matrix", "Aniso_Behavior"]
 TOL = 1e-10
 
